@@ -184,7 +184,7 @@ def _run_path(E, c, fnode, cls, params, canary):
         final_locals = E.frame.env
         env = dict(E.env_old)
         for k_, v_ in final_locals.items():
-            if k_ not in env and not k_.startswith("_"):
+            if not k_.startswith("_"):
                 env["L_" + k_] = v_          # final value of a local, for clauses guarded by the path they need
         E.frame.env = env
         env["result"] = result
